@@ -47,3 +47,30 @@ for p in PROFILES:
     }
 PLANS["C13"]["hang_is_violation"] = True
 PLANS["C15"]["hang_is_violation"] = True
+
+# ---- C12: the acknowledgement at the grain of its shared-memory accesses (Ack.tla)
+ACK_MC = [
+    {"module": "MC_Ack_inst", "cfg": "MC_Ack_2x2", "constants": "done || 2 tasks x 2 polls (one changes its waker), all interleavings, safety + <>AllDone under weak fairness"},
+]
+ACK_MC_T = ACK_MC + [
+    {"module": "MC_Ack_inst", "cfg": "MC_Ack_2x3", "constants": "done || 2 tasks x 3 polls"},
+    {"module": "MC_Ack_inst", "cfg": "MC_Ack_2x2_nofix", "expect_violation": "FlagImpliesStatus",
+     "constants": "same with the D1 repair switched off in the model: must be violated (vacuity control)"},
+]
+PLANS["C12"] = {
+    "mc": {"quick": ACK_MC, "thorough": ACK_MC_T},
+    "b1": {"quick": [{"kind": "ack", "module": "MC_Ack_inst", "cfg": "MC_Ack_1x3_export", "status": 1, "pollers": {"c0": [1, 1, 2]}, "trace_spec": "TraceAck"},
+                     {"kind": "ack", "module": "MC_Ack_inst", "cfg": "MC_Ack_2x1_export", "status": 13, "pollers": {"c0": [1], "c1": [11]}, "trace_spec": "TraceAck"},
+                     {"kind": "ack", "module": "MC_Ack_inst", "cfg": "MC_Ack_2x2_export", "status": 1, "pollers": {"c0": [1, 2], "c1": [11, 11]}, "sample": 400, "trace_spec": "TraceAck"}],
+           "thorough": [{"kind": "ack", "module": "MC_Ack_inst", "cfg": "MC_Ack_1x3_export", "status": 1, "pollers": {"c0": [1, 1, 2]}, "trace_spec": "TraceAck"},
+                        {"kind": "ack", "module": "MC_Ack_inst", "cfg": "MC_Ack_2x1_export", "status": 13, "pollers": {"c0": [1], "c1": [11]}, "trace_spec": "TraceAck"},
+                        {"kind": "ack", "module": "MC_Ack_inst", "cfg": "MC_Ack_2x2_export", "status": 1, "pollers": {"c0": [1, 2], "c1": [11, 11]}, "sample": 12000, "trace_spec": "TraceAck"}]},
+    "pygen": {"quick": [{"name": "ack-random", "fn": "ack_random", "count": 300, "runner": "ackrun", "trace_spec": "TraceAck"}],
+              "thorough": [{"name": "ack-random", "fn": "ack_random", "count": 5000, "runner": "ackrun", "trace_spec": "TraceAck"}]},
+    "trace_spec": "TraceAck",
+    "hang_is_violation": True,
+    "assumptions": ["TLC; the points D_*/P_* sit between the individual accesses of done()/poll() and add no logic",
+                    "the waker slot and its lock are not observable: the specification infers them, wake counts / flag / status cell are observed",
+                    "'the task that most recently polled before completion is woken' is read as: the waker registered in the slot when completion runs is woken, and no poll returns Pending after that (an earlier task that shares the handle with a later one is not promised a wake-up by the single slot)"],
+    "rule": "a case is one schedule of done() against the polls of 1-3 tasks; TLC-exported schedules are ALL schedules of the instance (or a seeded sample of them), random ones are seeded",
+}
